@@ -655,8 +655,21 @@ class Tr:
                     b = inner.arg(1)
                     xs.extend(cs)
                 pats = _patterns(b, xs)
-                q = z3.ForAll(xs, z3.Implies(rng, b), patterns=pats) if pats else \
-                    z3.ForAll(xs, z3.Implies(rng, b))
+                q = None
+                if pats:
+                    try:
+                        q = z3.ForAll(xs, z3.Implies(rng, b), patterns=pats)
+                    except z3.Z3Exception:
+                        good = []
+                        for pt in pats:
+                            try:
+                                z3.ForAll(xs, z3.Implies(rng, b), patterns=[pt])
+                                good.append(pt)
+                            except z3.Z3Exception:
+                                pass
+                        q = z3.ForAll(xs, z3.Implies(rng, b), patterns=good) if good else None
+                if q is None:
+                    q = z3.ForAll(xs, z3.Implies(rng, b))
             else:
                 q = z3.Exists([x], z3.And(rng, b))
             return vbool(q)
@@ -744,12 +757,28 @@ def _patterns(body, xs):
         memo[k] = r
         return r
 
+    ite_memo = {}
+
+    def has_ite(e):
+        k = e.get_id()
+        if k in ite_memo:
+            return ite_memo[k]
+        keep.append(e)
+        if not z3.is_app(e):
+            r = z3.is_quantifier(e)
+        elif e.decl().kind() == z3.Z3_OP_ITE:
+            r = True
+        else:
+            r = any(has_ite(c) for c in e.children())
+        ite_memo[k] = r
+        return r
+
     def walk(e):
         if e.get_id() in seen or not z3.is_app(e):
             return
         seen.add(e.get_id())
         keep.append(e)
-        if z3.is_select(e) and vars_in(e) == xids and not any(
+        if z3.is_select(e) and vars_in(e) == xids and not has_ite(e) and not any(
                 z3.is_app(c) and c.decl().kind() in (z3.Z3_OP_ADD, z3.Z3_OP_SUB, z3.Z3_OP_MUL)
                 for c in [e.arg(1)] + ([e.arg(0).arg(1)] if z3.is_select(e.arg(0)) else [])):
             found.append(e)
